@@ -18,7 +18,7 @@ LEVEL = "model_checking"
 
 def run(ctx):
     ctx.build(["c13"])
-    paths, rs = xcommon.explore(ctx, "c13", "X_C13", 200, 4000, lifted=True)
+    paths, rs = xcommon.explore(ctx, "c13", "X_C13", 300, 4000, lifted=True)
     claims = evals = 0
     modes = {}
     for p in paths:
